@@ -43,6 +43,19 @@ CLAIMED = {
         technique="constant agreement against a derived overhead + path typestate over a hand-built CFG (ast)",
         ref="4/C15",
     ),
+    "C17": dict(
+        level="other",
+        text="Table agreement: the five literal tables that drive primitive <-> command-set conversion "
+        "are evaluated statically and cross-checked against each other, against the attribute sets of "
+        "the 12 primitive classes and against a hand transcription of PS3.7 E.1-1 / 9.3 / 10.3, for "
+        "all 23 message types; the two generic copy loops and the class-name arithmetic are matched "
+        "structurally. Catches the symmetric mistakes (a keyword the primitive lacks, a swapped command "
+        "field, a wrong data-set keyword) that a round-trip test cannot see.",
+        note="Trusted: CPython ast; spec/ps3_7_command.json. Not decided: parameter setters' value ranges and "
+        "pydicom's encode/decode of the command set.",
+        technique="static evaluation and cross-checking of literal tables against class attribute sets and a spec transcription (ast)",
+        ref="4/C17",
+    ),
     "C28": dict(
         level="proof",
         text="Exhaustive over a finite space: code_to_category's clause chain is read from the syntax "
